@@ -6,9 +6,12 @@ import (
 	"fmt"
 	"io"
 	"strings"
+	"time"
 
 	"github.com/AliceO2Group/Control/common/event"
+	"github.com/AliceO2Group/Control/common/event/topic"
 	pb "github.com/AliceO2Group/Control/common/protos"
+	"github.com/AliceO2Group/Control/core/the"
 	vrt "github.com/AliceO2Group/Control/verif_vrt"
 	"github.com/segmentio/kafka-go"
 	"github.com/sirupsen/logrus"
@@ -19,79 +22,181 @@ type params struct {
 	producers, events int
 	hold              bool // broker holds every batch until all producers returned
 	taskEvents        bool
+	// --- added in the gap pass
+	kinds     bool          // the j-th event of a producer is of the j-th kind of allKinds (every payload type of events.proto)
+	latency   time.Duration // >0: the broker needs that much (virtual) time per batch
+	holdClose bool          // burst, the broker sits on the first batch, second burst, Close(): the broker answers only once Close() has been entered (shutdown while a write is in flight and more is queued)
+	idle      bool          // burst, quiet period, second burst: what was published must have reached the broker in the quiet period, without any shutdown
+}
+
+// every payload type internalEventToKafkaEvent knows; "env" = the event is about an environment
+var allKinds = []string{"EnvironmentEvent", "RoleEvent", "CallEvent", "IntegratedServiceEvent", "RunEvent", "TaskEvent", "CoreStart", "FrameworkEvent", "MesosHeartbeat"}
+
+// mkEvent builds the event of the given kind tagged msg about environment env; want is the
+// partition key the statement / mechanism asks for ("" = not about an environment: not judged)
+func mkEvent(kind, msg, env string) (e interface{}, id, want string) {
+	switch kind {
+	case "EnvironmentEvent":
+		return &pb.Ev_EnvironmentEvent{EnvironmentId: env, Message: msg}, msg + "@" + env, env
+	case "RoleEvent":
+		return &pb.Ev_RoleEvent{EnvironmentId: env, Name: msg, RolePath: "wf.role-" + msg}, msg + "@" + env, env
+	case "CallEvent":
+		return &pb.Ev_CallEvent{EnvironmentId: env, Func: msg, Path: "wf.call-" + msg}, msg + "@" + env, env
+	case "IntegratedServiceEvent":
+		return &pb.Ev_IntegratedServiceEvent{EnvironmentId: env, Name: msg, OperationName: "op-" + msg}, msg + "@" + env, env
+	case "RunEvent":
+		return &pb.Ev_RunEvent{EnvironmentId: env, State: msg, RunNumber: 7}, msg + "@" + env, env
+	case "TaskEvent":
+		return &pb.Ev_TaskEvent{Name: msg, Taskid: "task7", EnvironmentId: env}, msg + "@task7", "task7"
+	case "CoreStart":
+		return &pb.Ev_MetaEvent_CoreStart{FrameworkId: msg}, msg + "@", ""
+	case "FrameworkEvent":
+		return &pb.Ev_MetaEvent_FrameworkEvent{FrameworkId: "fw", Message: msg}, msg + "@", ""
+	}
+	return &pb.Ev_MetaEvent_MesosHeartbeat{}, "heartbeat@", ""
 }
 
 func decode(m kafka.Message) (id string, key string) {
+	id, key, _ = decodeKind(m)
+	return
+}
+
+func decodeKind(m kafka.Message) (id string, key string, kind string) {
 	var ev pb.Event
 	if err := proto.Unmarshal(m.Value, &ev); err != nil {
-		return "undecodable", string(m.Key)
+		return "undecodable", string(m.Key), "?"
 	}
 	if e := ev.GetEnvironmentEvent(); e != nil {
-		return e.Message + "@" + e.EnvironmentId, string(m.Key)
+		return e.Message + "@" + e.EnvironmentId, string(m.Key), "EnvironmentEvent"
 	}
 	if e := ev.GetTaskEvent(); e != nil {
-		return e.Name + "@" + e.Taskid, string(m.Key)
+		return e.Name + "@" + e.Taskid, string(m.Key), "TaskEvent"
 	}
-	return "other", string(m.Key)
+	if e := ev.GetRoleEvent(); e != nil {
+		return e.Name + "@" + e.EnvironmentId, string(m.Key), "RoleEvent"
+	}
+	if e := ev.GetCallEvent(); e != nil {
+		return e.Func + "@" + e.EnvironmentId, string(m.Key), "CallEvent"
+	}
+	if e := ev.GetIntegratedServiceEvent(); e != nil {
+		return e.Name + "@" + e.EnvironmentId, string(m.Key), "IntegratedServiceEvent"
+	}
+	if e := ev.GetRunEvent(); e != nil {
+		return e.State + "@" + e.EnvironmentId, string(m.Key), "RunEvent"
+	}
+	if e := ev.GetCoreStartEvent(); e != nil {
+		return e.FrameworkId + "@", string(m.Key), "CoreStart"
+	}
+	if e := ev.GetFrameworkEvent(); e != nil {
+		return e.Message + "@", string(m.Key), "FrameworkEvent"
+	}
+	if e := ev.GetMesosHeartbeatEvent(); e != nil {
+		return "heartbeat@", string(m.Key), "MesosHeartbeat"
+	}
+	return "other", string(m.Key), "?"
 }
 
 func scenario(name string, p params, q, t vrt.Bounds) *vrt.Scenario {
 	var batches [][]string // decoded ids per batch
 	var keys map[string]string
+	var kindOf map[string]string
 	var published [][]string // per producer, in publication order
 	var closed bool
-	var atClose int
+	var atClose, ackedAtClose int
+	var atIdle, publishedAtIdle int
+	var producerTook []time.Duration // virtual time a producer spent publishing one burst
 	producersDone := 0
+	closing := false
 	body := func() {
-		batches, keys, published, closed, producersDone = nil, map[string]string{}, make([][]string, p.producers), false, 0
-		handed := 0
+		batches, keys, kindOf, published, closed, producersDone = nil, map[string]string{}, map[string]string{}, make([][]string, p.producers), false, 0
+		closing, atIdle, publishedAtIdle, producerTook = false, -1, 0, nil
+		handed, acked := 0, 0
 		w := event.NewKafkaWriterForVerif(func(ms []kafka.Message) {
 			handed += len(ms) // the broker's write function has been called with them
 			var b []string
 			for _, m := range ms {
-				id, key := decode(m)
+				id, key, kind := decodeKind(m)
 				b = append(b, id)
 				keys[id] = key
+				kindOf[id] = kind
 			}
-			if p.hold {
+			switch {
+			case p.hold:
 				vrt.WaitUntil("broker-hold", func() bool { return producersDone == p.producers })
-			} else {
+			case p.holdClose:
+				vrt.WaitUntil("broker-hold-until-closing", func() bool { return closing })
+			case p.latency > 0:
+				vrt.Sleep(p.latency)
+			default:
 				vrt.Yield("broker-latency")
 			}
 			batches = append(batches, b)
+			acked += len(ms) // the write call has returned: the broker has them
 			vrt.Logf("batch %v", b)
 		})
-		var wg vrt.WaitGroup
-		wg.Add(p.producers)
-		for i := 0; i < p.producers; i++ {
-			i := i
-			vrt.GoFG(fmt.Sprintf("producer%d", i), func() {
-				for j := 0; j < p.events; j++ {
-					env := fmt.Sprintf("env%d", (i+j)%2)
-					msg := fmt.Sprintf("p%d-e%d", i, j)
-					if p.taskEvents && j%2 == 1 {
-						w.WriteEvent(&pb.Ev_TaskEvent{Name: msg, Taskid: "task7"})
-						published[i] = append(published[i], msg+"@task7")
-					} else {
-						w.WriteEvent(&pb.Ev_EnvironmentEvent{EnvironmentId: env, Message: msg})
-						published[i] = append(published[i], msg+"@"+env)
+		burst := func(phase int) {
+			var wg vrt.WaitGroup
+			wg.Add(p.producers)
+			for i := 0; i < p.producers; i++ {
+				i := i
+				vrt.GoFG(fmt.Sprintf("producer%d", i), func() {
+					t0 := vrt.VNow()
+					for j := phase * p.events; j < (phase+1)*p.events; j++ {
+						env := fmt.Sprintf("env%d", (i+j)%2)
+						msg := fmt.Sprintf("p%d-e%d", i, j)
+						switch {
+						case p.kinds:
+							kind := allKinds[j%len(allKinds)]
+							if kind == "MesosHeartbeat" && i > 0 {
+								kind = "CoreStart" // a heartbeat carries nothing to tell two of them apart
+							}
+							e, id, _ := mkEvent(kind, msg, env)
+							w.WriteEvent(e)
+							published[i] = append(published[i], id)
+						case p.taskEvents && j%2 == 1:
+							w.WriteEvent(&pb.Ev_TaskEvent{Name: msg, Taskid: "task7"})
+							published[i] = append(published[i], msg+"@task7")
+						default:
+							w.WriteEvent(&pb.Ev_EnvironmentEvent{EnvironmentId: env, Message: msg})
+							published[i] = append(published[i], msg+"@"+env)
+						}
 					}
-				}
-				producersDone++
-				wg.Done()
-			})
+					producerTook = append(producerTook, vrt.VNow()-t0)
+					producersDone++
+					wg.Done()
+				})
+			}
+			wg.Wait()
 		}
-		wg.Wait()
+		burst(0)
+		if p.idle || p.holdClose {
+			vrt.Quiesce("quiet-period")
+			if p.idle {
+				// nobody shuts anything down: when the system has gone quiet, what was published is with the broker
+				for _, pp := range published {
+					publishedAtIdle += len(pp)
+				}
+				atIdle = acked
+			}
+			// holdClose: the broker is now sitting on the first batch; the second burst queues up behind it
+			vrt.Logf("quiet")
+			producersDone = 0
+			burst(1)
+		}
+		closing = true
 		w.Close()
 		closed = true
 		// "every event accepted before shutdown is handed to the broker before shutdown completes":
 		// what the broker holds at the instant Close() returns
-		atClose = handed
+		atClose, ackedAtClose = handed, acked
 		vrt.Logf("closed")
 	}
 	check := func(x *vrt.Exec) (out []vrt.Violation) {
+		if p.idle && atIdle >= 0 && atIdle < publishedAtIdle {
+			out = append(out, vrt.Violation{Clause: "not-delivered-before-shutdown", Detail: fmt.Sprintf("%d events were published, then nothing could run any more and no shutdown was requested: the broker had received %d of them; batches at the end=%v", publishedAtIdle, atIdle, batches)})
+		}
 		if !closed {
-			return nil // deadlock is reported by the engine under the deadlock clause
+			return out // deadlock is reported by the engine under the deadlock clause
 		}
 		nPub := 0
 		for _, p := range published {
@@ -99,6 +204,18 @@ func scenario(name string, p params, q, t vrt.Bounds) *vrt.Scenario {
 		}
 		if atClose < nPub {
 			out = append(out, vrt.Violation{Clause: "handed-to-the-broker-only-after-shutdown-completed", Detail: fmt.Sprintf("%d events were accepted before Close(), the broker held %d of them when Close() returned; batches at the end=%v", nPub, atClose, batches)})
+		} else if ackedAtClose < nPub {
+			out = append(out, vrt.Violation{Clause: "handed-to-the-broker-only-after-shutdown-completed", Detail: fmt.Sprintf("%d events were accepted before Close(); when Close() returned the write calls for only %d of them had returned (%d were inside a write call still in flight)", nPub, ackedAtClose, atClose-ackedAtClose)})
+		}
+		// "without the producers ever waiting for the broker": a broker that needs (virtual) time per
+		// batch must not cost the producers any
+		if p.latency > 0 {
+			for i, d := range producerTook {
+				if d >= p.latency {
+					out = append(out, vrt.Violation{Clause: "producer-waited-for-broker", Detail: fmt.Sprintf("the broker needs %s per batch; a producer (#%d to finish) needed %s of virtual time to publish %d events", p.latency, i, d, p.events)})
+					break
+				}
+			}
 		}
 		var flat []string
 		for _, b := range batches {
@@ -145,8 +262,15 @@ func scenario(name string, p params, q, t vrt.Bounds) *vrt.Scenario {
 		}
 		for id, key := range keys {
 			want := id[strings.Index(id, "@")+1:]
+			if want == "" {
+				continue // not about an environment or a task: the statement says nothing about its key
+			}
 			if key != want {
-				out = append(out, vrt.Violation{Clause: "partition-key", Detail: fmt.Sprintf("event %s has key %q, want %q", id, key, want)})
+				clause := "partition-key"
+				if k := kindOf[id]; k != "EnvironmentEvent" && k != "TaskEvent" {
+					clause += ":" + k
+				}
+				out = append(out, vrt.Violation{Clause: clause, Detail: fmt.Sprintf("event %s (%s) has key %q, want %q", id, kindOf[id], key, want)})
 			}
 		}
 		return out
@@ -155,10 +279,117 @@ func scenario(name string, p params, q, t vrt.Bounds) *vrt.Scenario {
 	if p.hold {
 		dc = "producer-waits-for-broker-or-close-hangs"
 	}
+	doc := fmt.Sprintf("%d producers x %d events, hold=%v", p.producers, p.events, p.hold)
+	switch {
+	case p.kinds:
+		doc += ", every payload type of events.proto in turn, two environments"
+	case p.latency > 0:
+		doc += fmt.Sprintf(", the broker needs %s of virtual time per batch", p.latency)
+	case p.holdClose:
+		doc += ", the broker sits on the first batch while as many events again are published and answers only once Close() has been entered"
+	case p.idle:
+		doc += ", then a quiet period without shutdown (everything published must be with the broker), then as many again and Close()"
+	}
 	return &vrt.Scenario{Name: name, Prop: "C19", Body: body, Check: check, Quick: q, Thorough: t, DeadlockClause: dc, PanicClause: "panic",
 		Setup: func() { logrus.SetOutput(io.Discard) },
 		NonTrivial: func(x *vrt.Exec) bool { return len(batches) > 0 || p.events == 0 },
-		Doc:        fmt.Sprintf("%d producers x %d events, hold=%v", p.producers, p.events, p.hold)}
+		Doc:        doc}
+}
+
+// topics: the writers the core keeps per topic (core/the/eventwriter.go). Events are published through
+// the.EventWriter() / the.EventWriterWithTopic(); the core's shutdown is the.ClearEventWriters(), which
+// must hand everything accepted on every topic to the broker before it returns.
+func topics(name string, topicNames []topic.Topic, events int, q, t vrt.Bounds) *vrt.Scenario {
+	var published map[topic.Topic][]string
+	var delivered map[topic.Topic][]string
+	var ackedAtClear, nPub int
+	var cleared, sameWriter bool
+	body := func() {
+		published, delivered = map[topic.Topic][]string{}, map[topic.Topic][]string{}
+		cleared, sameWriter, ackedAtClear, nPub = false, true, 0, 0
+		acked := 0
+		the.ResetEventWritersForVerif()
+		for _, tn := range topicNames {
+			tn := tn
+			the.SetEventWriterForVerif(tn, event.NewKafkaWriterForVerif(func(ms []kafka.Message) {
+				vrt.Yield("broker-latency")
+				for _, m := range ms {
+					id, _ := decode(m)
+					delivered[tn] = append(delivered[tn], id)
+				}
+				acked += len(ms)
+				vrt.Logf("batch on %s: %d", tn, len(ms))
+			}))
+		}
+		var wg vrt.WaitGroup
+		wg.Add(len(topicNames))
+		for i, tn := range topicNames {
+			i, tn := i, tn
+			vrt.GoFG(fmt.Sprintf("producer-%s", tn), func() {
+				for j := 0; j < events; j++ {
+					w := the.EventWriterWithTopic(tn)
+					if tn == topic.Root {
+						w = the.EventWriter()
+					}
+					if j > 0 && w != the.EventWriterWithTopic(tn) {
+						sameWriter = false
+					}
+					msg := fmt.Sprintf("t%d-e%d", i, j)
+					w.WriteEvent(&pb.Ev_EnvironmentEvent{EnvironmentId: "envA", Message: msg})
+					published[tn] = append(published[tn], msg+"@envA")
+				}
+				wg.Done()
+			})
+		}
+		wg.Wait()
+		the.ClearEventWriters()
+		cleared = true
+		ackedAtClear = acked
+		for _, ids := range published {
+			nPub += len(ids)
+		}
+		vrt.Logf("cleared")
+	}
+	check := func(x *vrt.Exec) (out []vrt.Violation) {
+		if !cleared {
+			return nil
+		}
+		if ackedAtClear < nPub {
+			out = append(out, vrt.Violation{Clause: "topic-writers-not-flushed-at-shutdown", Detail: fmt.Sprintf("%d events were accepted on %d topics before ClearEventWriters(); the broker held %d of them when it returned; delivered at the end=%v", nPub, len(topicNames), ackedAtClear, delivered)})
+		}
+		if !sameWriter {
+			out = append(out, vrt.Violation{Clause: "topic-writer-not-stable", Detail: "two look-ups of the writer of one topic returned different writers (per-producer order across them is nobody's)"})
+		}
+		for tn, ids := range published {
+			got := delivered[tn]
+			if len(got) > len(ids) {
+				out = append(out, vrt.Violation{Clause: "duplicate-delivery", Detail: fmt.Sprintf("topic %s: published %v, delivered %v", tn, ids, got)})
+				continue
+			}
+			for k, id := range got {
+				if id != ids[k] {
+					out = append(out, vrt.Violation{Clause: "order", Detail: fmt.Sprintf("topic %s: published %v, delivered %v", tn, ids, got)})
+					break
+				}
+			}
+			if len(got) < len(ids) {
+				out = append(out, vrt.Violation{Clause: "lost-at-shutdown", Detail: fmt.Sprintf("topic %s: published %v, delivered %v", tn, ids, got)})
+			}
+		}
+		return out
+	}
+	return &vrt.Scenario{Name: name, Prop: "C19", Body: body, Check: check, Quick: q, Thorough: t, DeadlockClause: "close-hangs", PanicClause: "panic",
+		Setup: func() { logrus.SetOutput(io.Discard) },
+		NonTrivial: func(x *vrt.Exec) bool { return len(delivered) > 0 },
+		Doc:        fmt.Sprintf("%d topics of the core's writer table (the.EventWriterWithTopic) x %d events, shutdown = the.ClearEventWriters()", len(topicNames), events)}
+}
+
+// costly: every departure from the default schedule costs a deviation, also the choice of the next thread
+// when the running one blocks (otherwise bound 0 alone is every wake-up order of all the loops)
+func costly(sc *vrt.Scenario) *vrt.Scenario {
+	sc.Cfg = vrt.Config{FreeSwitchCost: true}
+	sc.Doc += "; every departure from the default schedule counts as a deviation"
+	return sc
 }
 
 func main() {
@@ -172,5 +403,17 @@ func main() {
 		// more events than the writer's input channel holds (10000): the producer must block, not reorder or drop
 		scenario("burst10050", params{producers: 1, events: 10050}, vrt.Bounds{Dev: 0, Seconds: 120}, vrt.Bounds{Dev: 0, Seconds: 300}),
 		scenario("burst2x5010", params{producers: 2, events: 5010}, vrt.Bounds{Dev: 0, Seconds: 120}, vrt.Bounds{Dev: 0, Seconds: 300}),
+		// --- gap pass: input kinds, broker latency in virtual time, shutdown instants, bursts separated by quiet periods, the core's writer table
+		scenario("kinds", params{producers: 2, events: 9, kinds: true}, vrt.Bounds{Dev: 0, Seconds: 60}, vrt.Bounds{Dev: 1, Seconds: 300}),
+		scenario("slow205", params{producers: 1, events: 205, latency: 5 * time.Second}, vrt.Bounds{Dev: 0, Seconds: 60}, vrt.Bounds{Dev: 1, Seconds: 300}),
+		costly(scenario("slow-p2e2", params{producers: 2, events: 2, latency: 5 * time.Second}, vrt.Bounds{Dev: 2, Seconds: 60}, vrt.Bounds{Dev: 3, Seconds: 600})),
+		scenario("hold-close", params{producers: 1, events: 3, holdClose: true}, vrt.Bounds{Dev: 1, Seconds: 60}, vrt.Bounds{Dev: 3, Seconds: 300}),
+		costly(scenario("hold-close205", params{producers: 1, events: 205, holdClose: true}, vrt.Bounds{Dev: 0, Seconds: 60}, vrt.Bounds{Dev: 1, Seconds: 300})),
+		scenario("quiet-p1e2", params{producers: 1, events: 2, idle: true}, vrt.Bounds{Dev: 1, Seconds: 60}, vrt.Bounds{Dev: 3, Seconds: 600}),
+		costly(scenario("quiet-p2e1", params{producers: 2, events: 1, idle: true}, vrt.Bounds{Dev: 2, Seconds: 60}, vrt.Bounds{Dev: 3, Seconds: 900})),
+		// held broker and twice as many events as the input channel holds: the buffer between the loops must take them all
+		costly(scenario("hold-burst21000", params{producers: 1, events: 21000, hold: true}, vrt.Bounds{Dev: 0, Seconds: 120}, vrt.Bounds{Dev: 0, Seconds: 300})),
+		costly(topics("topics2", []topic.Topic{topic.Root, topic.Environment}, 2, vrt.Bounds{Dev: 1, Seconds: 60}, vrt.Bounds{Dev: 3, Seconds: 900})),
+		costly(topics("topics3x120", []topic.Topic{topic.Root, topic.Environment, topic.Task}, 120, vrt.Bounds{Dev: 0, Seconds: 60}, vrt.Bounds{Dev: 1, Seconds: 300})),
 	})
 }
